@@ -98,6 +98,10 @@ def totality(L):
             real_raise = False
         except ValueError:
             real, real_raise = None, True
+        except Exception as e:  # noqa  - the real parser fails with something else on a concrete text: a totality candidate in itself
+            out.append({"signature": {"site": "parse_ranking_with_ties", "class": "raises-" + type(e).__name__}, "kind": "totality",
+                        "what": f"raises {type(e).__name__} (not ValueError) on {txt!r}", "text": txt})
+            continue
         if real_raise != sym_raise or (not real_raise and real != [sorted(set(b)) for b in (sym_res or [])]):
             raise harness.HarnessError(f"string model disagrees with CPython on {txt!r}: model raise={sym_raise} result={sym_res}, real raise={real_raise} result={real}")
         STATS.validated += 1
@@ -140,6 +144,41 @@ def wrapper_totality(L):
         out.append({"signature": {"site": "Ranking.from_string", "class": txt.split(" ")[0]}, "kind": "wrapper", "what": "from_string: " + txt, "text": text_of(mdl)})
     STATS.states += 1
     STATS.sample({"from_string wrapper": f"any string of length <= {L}; scanner stubbed", "obligations": len(I.ctx.obligations)})
+    return out
+
+
+def decision_lemma(L):
+    """[S] the int-or-string decision of Ranking.from_string / Dataset: Element(name).can_be_int() for a name of <= L symbolic
+    characters (code points < 128, no delimiter) holds exactly when the name is a non-empty string of decimal digits, i.e.
+    exactly when int(name) cannot fail and str(int(name)) denotes the same integer"""
+    from corankco.element import Element
+    out = []
+    chars = [z3.Int(f"c{i}") for i in range(L)]
+    length = z3.Int("len")
+    pre = [ALPHABET_OK(c) for c in chars] + [length >= 1, length <= L]
+
+    class _El:
+        _type = str
+    el = _El()
+    el._value = MStr(chars, 0, length)
+    I = merge.new_interp(unwind=L + 2)
+    r = I.call_function(Element.can_be_int, [el])
+    STATS.encoded.update(I.ctx.encoded)
+    digits = z3.And(*[z3.Implies(k < length, z3.And(chars[k] >= 48, chars[k] <= 57)) for k in range(L)])
+    s = harness.solver(120000)
+    s.add(*pre)
+    rz = merge.to_z3(r) if not isinstance(r, bool) else z3.BoolVal(r)
+    res, mdl = harness.refute(s, "property", rz != digits)
+    if res == "sat":
+        n = harness.zval(mdl, length)
+        name = "".join(chr(harness.zval(mdl, chars[i])) for i in range(n))
+        out.append({"signature": {"site": "Element.can_be_int", "class": "decision"}, "kind": "decision", "name": name,
+                    "what": f"Element({name!r}).can_be_int() answers {not name.isdigit()}, but the name is{'' if name.isdigit() else ' not'} a decimal integer"})
+    elif res != "unsat":
+        raise harness.Inconclusive("decision lemma unknown")
+    for g, nm in I.ctx.raises:
+        out.append({"signature": {"site": "Element.can_be_int", "class": "raises"}, "kind": "decision", "name": "a", "what": f"can_be_int raises {nm}"})
+    STATS.states += 1
     return out
 
 
@@ -239,7 +278,8 @@ def concrete_roundtrip(_):
     """[P] above the parser: Ranking.from_string(str(r)) == r"""
     from corankco.ranking import Ranking
     out = []
-    pools = [[1, 2, 3, 40, 5, 0], ["a", "b", "cd", "e_f", "G", "x1"], [7, 11, 3, 8, 100, 42]]
+    pools = [[1, 2, 3, 40, 5, 0], ["a", "b", "cd", "e_f", "G", "x1"], [7, 11, 3, 8, 100, 42],
+             ["1a", "2b", "42nd", "7_", "0x", "9-z"], ["a1", "10", "b", "2", "c3", "4"], ["-1", "+2", "1.5", "1e3", "3", "0"]]
     for shape in SHAPES:
         for pool in pools:
             it = iter(pool)
@@ -449,7 +489,8 @@ def _file_rt(rk, path):
 
 
 def dispatch(a):
-    return {"t": totality, "r": roundtrip, "c": concrete_roundtrip, "w": wrapper_totality, "f": file_check, "fc": concrete_file_roundtrip}[a[0]](a[1])
+    return {"t": totality, "r": roundtrip, "c": concrete_roundtrip, "w": wrapper_totality, "f": file_check, "fc": concrete_file_roundtrip,
+            "d": decision_lemma}[a[0]](a[1])
 
 
 def run(run):
@@ -488,9 +529,15 @@ def run(run):
     run.outside = ["strings longer than the bounds", "code points >= 128 (Unicode whitespace / digits)",
                    "the operating system's file layer (open / read / write are a buffer of code points; os.path answers 'fresh file in an existing directory'); files of more than 3 rankings; "
                    "Dataset equality of the objects read back (C17) - rankings are compared bucket by bucket",
-                   "the int-or-string decision above the parser is only exercised on concrete instances"]
+                   "the int-or-string decision above the parser: its predicate is an [S] lemma (names of <= 4 characters), its use in "
+                   "Ranking.from_string / Dataset is exercised on concrete instances (incl. names that start with digits, signs, decimals)"]
     run.rule = "totality: one query per raise site and per obligation; round trip: two queries per template (no raise; buckets and spans equal)"
-    run.pmap("string checks", dispatch, jobs)
+    # parts are isolated: an unsupported construct met by one engine part must not hide what another part found
+    run.pmap("concrete round trips", dispatch, [j for j in jobs if j[0] in ("c", "fc")])
+    run.pmap("decision lemma", dispatch, [("d", 4)])
+    run.pmap("totality", dispatch, [j for j in jobs if j[0] in ("t", "w")])
+    run.pmap("template round trips", dispatch, [j for j in jobs if j[0] == "r"])
+    run.pmap("file round trips", dispatch, [j for j in jobs if j[0] == "f"])
 
 
 def replay(p):
@@ -503,6 +550,13 @@ def replay(p):
             return not (back == r), f"from_string({p['text']!r}) = {back}"
         except Exception as e:  # noqa
             return True, f"from_string({p['text']!r}) raised {type(e).__name__}: {e}"
+    if p["kind"] == "decision":
+        from corankco.element import Element
+        try:
+            got = Element(p["name"]).can_be_int()
+        except Exception as e:  # noqa
+            return True, f"can_be_int({p['name']!r}) raised {type(e).__name__}: {e}"
+        return bool(got) != p["name"].isdigit(), f"Element({p['name']!r}).can_be_int() = {got}"
     if p["kind"] == "file":
         import tempfile, shutil, os
         tmp = tempfile.mkdtemp(prefix="vf_c18_")
